@@ -9,6 +9,7 @@ import (
 	"runtime"
 	"sync"
 	"time"
+	wdog "verifharness/wd"
 
 	"github.com/goatcms/goatcore/app"
 	"github.com/goatcms/goatcore/app/scope"
@@ -32,7 +33,7 @@ type ScopeNode struct {
 	// a listener of this scope fails on event FailSubEv of its DESCENDANT FailSubID (ancestors' listeners run first)
 	FailSubEv string `json:"failsubev"`
 	FailSubID string `json:"failsubid"`
-	sc       app.Scope
+	sc        app.Scope
 }
 
 type closeLog struct {
@@ -252,7 +253,7 @@ func RunCloseScenario(r *rand.Rand, w io.Writer) (events int, hung bool) {
 	go func() { all.Wait(); close(finished) }()
 	select {
 	case <-finished:
-	case <-time.After(20 * time.Second):
+	case <-wdog.After(20 * time.Second):
 		buf := make([]byte, 1<<16)
 		n := runtime.Stack(buf, true)
 		lg.emit(map[string]interface{}{"ev": "hang", "what": "closers/workers did not finish within 20 s", "goroutines": string(buf[:n])})
@@ -265,7 +266,7 @@ func RunCloseScenario(r *rand.Rand, w io.Writer) (events int, hung bool) {
 			select { // the isolated context's watcher needs a moment
 			case <-nd.sc.Done():
 				done = true
-			case <-time.After(2 * time.Second):
+			case <-wdog.After(2 * time.Second):
 			}
 		}
 		errs := len(nd.sc.Errors())
